@@ -48,18 +48,29 @@ def main():
     env = dict(os.environ, PYTHONPATH=wt, XDG_DATA_HOME=xdg + "/d", XDG_CONFIG_HOME=xdg + "/c", XDG_CACHE_HOME=xdg + "/k", PYTHONDONTWRITEBYTECODE="1")
     for d in ("d", "c", "k"):
         os.makedirs(f"{xdg}/{d}")
+    def fresh_env():
+        # every step gets its own empty XDG dirs (a demo that writes a legacy database must not leak into the test run)
+        nonlocal env
+        sub = tempfile.mkdtemp(prefix="s-", dir=xdg)
+        for d in ("d", "c", "k"):
+            os.makedirs(f"{sub}/{d}")
+        env = dict(os.environ, PYTHONPATH=wt, XDG_DATA_HOME=sub + "/d", XDG_CONFIG_HOME=sub + "/c", XDG_CACHE_HOME=sub + "/k", PYTHONDONTWRITEBYTECODE="1")
+
     try:
         rc, out = sh("git status --porcelain --untracked-files=no", cwd=wt)
         assert out.strip() == "", f"worktree not clean: {out}"
+        fresh_env()
         rc, out = sh(f"/venv/bin/python -B {a.demo}", cwd=wt, env=env)
         res["demo_unpatched_rc"] = rc
         rc, out = sh(f"git apply {a.patch}", cwd=wt)
         assert rc == 0, f"patch does not apply: {out}"
         if not a.skip_tests:
             t = time.time()
+            fresh_env()
             rc, out = sh("/venv/bin/python -B -m pytest -q -p no:cacheprovider --timeout=900 tests 2>&1 | tail -3", cwd=wt, env=env)
             res["tests_with_patch"] = out.strip().splitlines()[-1] if out.strip() else ""
             res["tests_pass"] = " passed" in out and "failed" not in out and "error" not in out.lower()
+        fresh_env()
         rc, out = sh(f"/venv/bin/python -B {a.demo}", cwd=wt, env=env)
         res["demo_patched_rc"] = rc
         res["demo_patched_tail"] = out.strip().splitlines()[-1][:300] if out.strip() else ""
